@@ -331,8 +331,8 @@ SPEC = r"""
     ensures
         (expr.0 is Var) ==> ev(context.builtins.type_functions, old(scopes).world(), *expr, r, final(scopes).world()), // [C20:reading_a_name_yields_its_innermost_declaration_or_an_error_at_that_name]
         (expr.0 is BinaryOp) ==> ev(context.builtins.type_functions, old(scopes).world(), *expr, r, final(scopes).world()), // [C16:binary_operation_evaluates_lhs_then_rhs_once_and_applies_the_operator_to_them_in_order]
-        (expr.0 is Index) ==> ev(context.builtins.type_functions, old(scopes).world(), *expr, r, final(scopes).world()), // [C11:element_and_property_reads_are_defined_exactly_inside_the_sequence_or_for_present_keys_and_are_errors_otherwise]
-        (expr.0 is Prop) ==> ev(context.builtins.type_functions, old(scopes).world(), *expr, r, final(scopes).world()), // [C12:dot_name_reads_the_same_property_as_index_by_that_string_and_type_functions_are_defined_for_every_value_but_null]
+        (expr.0 is Index) ==> ev(context.builtins.type_functions, old(scopes).world(), *expr, r, final(scopes).world()), // [C11_C12_C14:element_and_property_reads_attach_the_object_read_from_as_this_and_are_defined_exactly_inside_the_sequence_or_for_present_keys_and_are_errors_otherwise]
+        (expr.0 is Prop) ==> ev(context.builtins.type_functions, old(scopes).world(), *expr, r, final(scopes).world()), // [C12_C14:dot_name_attaches_the_object_read_from_as_this_and_reads_the_same_property_as_index_by_that_string_and_type_functions_are_defined_for_every_value_but_null]
         (expr.0 is Object) ==> ev(context.builtins.type_functions, old(scopes).world(), *expr, r, final(scopes).world()), // [C12:object_literal_entries_are_evaluated_in_source_order_with_shorthand_spread_string_names_and_later_entries_winning]
         (expr.0 is Range) ==> ev(context.builtins.type_functions, old(scopes).world(), *expr, r, final(scopes).world()), // [C06:range_is_exactly_the_ascending_integers_from_start_up_to_but_excluding_end]
         (expr.0 is RangeIndex) ==> ev(context.builtins.type_functions, old(scopes).world(), *expr, r, final(scopes).world()), // [C11:range_read_evaluates_bounds_then_the_sequence_and_delegates_to_the_range_read_contract]
@@ -417,3 +417,27 @@ def build(read):
         parts.FOOTER,
     ])
     return b
+
+
+def replays(failed):
+    def exp(out=None, err=None):
+        def judge(rc, o, e):
+            if rc not in (0, 103):
+                return f"interpreter crashed (exit {rc})"
+            if out is not None and (rc != 0 or o != out):
+                return f"expected stdout {out!r}"
+            if err is not None and (rc != 103 or err not in e):
+                return f"expected an error containing {err!r}"
+            return None
+        return judge
+    yield ("`this` is the object the function was read from for this call",
+           "a := {\"n\": 1, \"f\": fn() {\n    return this.n\n}}\nb := {\"n\": 2, \"f\": a.f}\nprint(b.f())\nprint(b[\"f\"]())\nprint(a.f())\n", exp("2\n2\n1\n"))
+    yield ("a function read from an object keeps it as `this` when stored and called later",
+           "a := {\"n\": 1, \"f\": fn() {\n    return this.n\n}}\ng := a.f\nprint(g())\n", exp("1\n"))
+    yield ("operands are evaluated left to right, once", "fn t(x) {\n    print(x)\n    return x\n}\nprint(t(1) + t(2))\n", exp("1\n2\n3\n"))
+    yield ("index read in / out of bounds", "xs := [7, 8]\nprint(xs[1])\nprint(xs[2])\n", exp(err="2"))
+    yield ("missing property is an error", "o := {\"a\": 1}\nprint(o.a)\nprint(o.b)\n", exp(err="b"))
+    yield ("dot and index read the same property", "o := {\"a\": 1}\nprint(o.a == o[\"a\"])\n", exp("true\n"))
+    yield ("range", "print(2 .. 5)\n", exp("[\n    2,\n    3,\n    4,\n]\n"))
+    yield ("undefined name", "print(zz)\n", exp(err="1:7"))
+    yield ("object literal order and shorthand", "a := 1\nprint({\"b\": 2, a})\n", exp("{\n    \"a\": 1,\n    \"b\": 2,\n}\n"))
